@@ -93,6 +93,19 @@ CLAIMED["C12"] = dict(
     technique="TLA+ spec (QueryGen math profile, Query.MathApply) + TLC enumeration, replay into translator and compiled code, TLC trace validation against a libm reference table",
 )
 
+CLAIMED["C16"] = dict(
+    category="fault_enumeration",
+    text="TLC explores the Runner machine (invocation sequences x flags, required exit class / destination contents) and exports every sequence; each is replayed with "
+         "the real rendered runner.sh of the three backends, unmodified, in a private user+mount namespace with stub tools, once fault-free and once per external "
+         "command of its last invocation with that command failing; TLC (RunnerTrace) validates every observed invocation: exit codes, no success and no fresh output "
+         "after a failure in a named step, this run's output from exactly the requested inputs at the target on exit 0, -c quiet, other destinations untouched.",
+    design_ref="DESIGN.md section 5 C16, section 2.8, section 3.1",
+    note="Sequences up to length 2 (quick) / 3 (thorough); single failures only; external tools are stubs (harness/stubs) that log, fail on request and do the minimum the "
+         "next step needs; outcomes the property leaves open (-c -r together, compiling twice in one directory, incidental command failures) are only held to "
+         "'exit 0 => this run's output is delivered'.",
+    technique="TLA+ spec Runner/RunnerReq + TLC sequence enumeration, fault injection at every discovered command of the real scripts in a namespace sandbox, TLC trace validation (RunnerTrace)",
+)
+
 PENDING = "check not built yet in this round (planned, see DESIGN.md section 11); not claimed until its machinery exists"
 
 
